@@ -10,9 +10,10 @@ Require Import PyLib Str IpModel TextModel G_fn_ip2 RefJun RefIo RefIpLine.
 (* _anonymize_match translated from the source is the model's ip_match: text that does not parse as an address, masks and preserved networks
    are returned as they were matched; anything else is replaced by the printed image (pre-image when undoing) and the cache is updated *)
 Theorem C06_generated_anonymize_match_is_the_model :
-  forall (v6 : bool) (t : anonymizer) (fuel : nat) (a : anonymizer) (m : str) (undo : bool), same_static t a ->
+  forall (v6 : bool) (t : anonymizer) (pc : pyval -> pyval -> PyLib.res) (hrx : pyval), ip_contract v6 t pc hrx ->
+  forall (fuel : nat) (a : anonymizer) (m : str) (undo : bool), same_static t a ->
   match ip_match v6 undo (Done a) m with
-  | (Done a', out) => gen__anonymize_match (ip_call v6 t) fuel (eip v6 a) (vstr m) (VBool undo) = Normal (VTuple [vstr out; eip v6 a']) /\ same_static t a'
+  | (Done a', out) => gen__anonymize_match pc fuel (eip v6 a) (vstr m) (VBool undo) = Normal (VTuple [vstr out; eip v6 a']) /\ same_static t a'
   | (Raised _, _) => True
   end.
 Proof. exact gen_anonymize_match_refines. Qed.
@@ -20,10 +21,17 @@ Proof. exact gen_anonymize_match_refines. Qed.
 (* anonymize_ip_addr translated from the source is the model's anonymize_ip_line: every match of the address pattern, leftmost first, handed to
    _anonymize_match with the cache left by the previous one, the text between the matches copied *)
 Theorem C06_generated_anonymize_ip_addr_is_the_model :
-  forall (v6 : bool) (t : anonymizer) (fuel : nat) (a : anonymizer) (line : str) (undo : bool) (a' : anonymizer) (l : str), same_static t a ->
+  forall (v6 : bool) (t : anonymizer) (pc : pyval -> pyval -> PyLib.res) (hrx : pyval), ip_contract v6 t pc hrx ->
+  forall (fuel : nat) (a : anonymizer) (line : str) (undo : bool) (a' : anonymizer) (l : str), same_static t a ->
   anonymize_ip_line v6 undo a line = Done (a', l) ->
-  gen_anonymize_ip_addr (ip_call v6 t) fuel (eip v6 a) (vstr line) (VBool undo) = Normal (VTuple [vstr l; eip v6 a']).
+  gen_anonymize_ip_addr pc fuel (eip v6 a) (vstr line) (VBool undo) = Normal (VTuple [vstr l; eip v6 a']).
 Proof. exact gen_anonymize_ip_addr_refines. Qed.
+
+(* ip_contract says how the dispatcher answers the anonymizer's methods (with the MODEL's functions) and the pattern's finditer / group(0);
+   the concrete dispatcher ip_call meets it *)
+Theorem C06G_contract_is_met : forall (v6 : bool) (t : anonymizer), ip_contract v6 t (ip_call v6 t) HRX.
+Proof. exact ip_call_contract. Qed.
 
 Print Assumptions C06_generated_anonymize_match_is_the_model.
 Print Assumptions C06_generated_anonymize_ip_addr_is_the_model.
+Print Assumptions C06G_contract_is_met.
